@@ -210,7 +210,7 @@ pub fn run(ctx: &Ctx) -> i32 {
             assumptions: vec!["keys are unique per project in this workload (collisions are C05/C11's matter)".into()],
             exhaustive: false,
             extra: Default::default(),
-            min_nontrivial: 500,
+            min_nontrivial: 50,
         },
     )
 }
